@@ -92,7 +92,7 @@ fn stream_with(tk: &mut VaporettoTokenizer, text: &str, consumer: u8) -> Result<
                 3 => st.token_mut().text = "é".to_string(),
                 _ => {}
             }
-            if out.len() > 1000 {
+            if out.len() > text.len() + 1000 {
                 panic!("token stream does not terminate");
             }
         }
@@ -294,6 +294,16 @@ fn main() {
         for len in [40usize, 150] {
             texts.push((0..len).map(|i| tsigma[(i * (rot + 1) + rot) % (tsigma.len() - 1)]).collect());
         }
+    }
+    // threshold lengths (u8, 1 KiB; thorough also 4 KiB and u16 in characters AND in bytes): offsets are counted in
+    // bytes of 1-4-byte characters, so both counts cross the sizes
+    for len in tier.pick(vec![255usize, 256, 257, 1025, 4097, 9000], vec![255, 256, 257, 1025, 4097, 9000, 16385, 21846, 65535, 65537]) {
+        texts.push((0..len).map(|i| tsigma[(i * 5 + i / 9) % (tsigma.len() - 1)]).collect());
+        // a fixed scrambled sequence: every adjacent pair and triple of the alphabet occurs many times (CR LF,
+        // LF LF, dash next to a line break, ...), which no rotation gives
+        texts.push((0..len).map(|i| tsigma[(gen::mix(i as u64) % (tsigma.len() as u64 - 1)) as usize]).collect());
+        texts.push((0..len).map(|i| ['a', 'あ'][(i / 3) % 2]).collect());
+        texts.push(std::iter::repeat('a').take(len).collect());
     }
     // second alphabet: characters the normaliser changes WITHOUT leaving the 3-byte range (dash and
     // tilde look-alikes, half-width CJK punctuation and katakana) next to katakana / hiragana, so that
